@@ -401,10 +401,46 @@ def check_history(label, m, rng):
     return fails
 
 
+def run_periodic(payload):
+    """periodic (DG-topology) tensor meshes, every subset of periodic directions: the numbering is gap-free and has exactly the expected size; Q2/P2 likewise"""
+    import itertools
+    import skfem as fem
+    from skfem.mesh import MeshLine1DG, MeshTri1DG, MeshQuad1DG, MeshHex1DG
+    cases, failures = 0, []
+    for cls, d, E1, E2 in ((MeshLine1DG, 1, fem.ElementLineP1, fem.ElementLineP2), (MeshTri1DG, 2, fem.ElementTriP1, fem.ElementTriP2),
+                           (MeshQuad1DG, 2, fem.ElementQuad1, fem.ElementQuad2), (MeshHex1DG, 3, fem.ElementHex1, fem.ElementHex2)):
+        for r in range(0, d + 1):
+            for per in itertools.combinations(range(d), r):
+                cases += 1
+                grids = [np.linspace(0, 1, 4 + i) for i in range(d)]
+                label = "%s.init_tensor(periodic=%s)" % (cls.__name__, list(per))
+                try:
+                    m = cls.init_tensor(*grids, periodic=list(per))
+                    exp = int(np.prod([(len(g) - 1) if i in per else len(g) for i, g in enumerate(grids)]))
+                    for E in (E1, E2):
+                        b = fem.CellBasis(m, E())
+                        used = np.unique(b.element_dofs)
+                        if not np.array_equal(used, np.arange(b.N)):
+                            failures.append(dict(input=label, observed="%s: %d of the numbers 0..N-1 = %d are used by no cell (gap in the numbering)" % (E.__name__, b.N - len(used), b.N - 1)))
+                        if E is E1 and b.N != exp:
+                            failures.append(dict(input=label, observed="%s: N = %d, the periodic grid has %d distinct vertices" % (E.__name__, b.N, exp)))
+                        A = fem.BilinearForm(lambda u, v, w: u * v).assemble(b)
+                        if A.shape != (b.N, b.N) or (abs(A).sum(axis=1) == 0).any():
+                            failures.append(dict(input=label, observed="%s: mass matrix has shape %s / structurally empty rows" % (E.__name__, A.shape)))
+                except Exception as ex:
+                    failures.append(dict(input=label, observed="raised %s: %s" % (type(ex).__name__, str(ex)[:120])))
+    for f in failures:
+        f["replay"] = dict(kind="mesh_case", what="periodic", only=None, seed=0, tier="quick")
+    return dict(cases=cases, failures=failures[:20], samples=["MeshHex1DG.init_tensor(periodic=[0, 1, 2])"], nontrivial=cases,
+                bound="periodic tensor meshes of segments, triangles, quadrilaterals, hexahedra (4-6 points per direction) for EVERY subset of periodic directions x {P1/Q1, P2/Q2}")
+
+
 def run(payload):
     what = payload.get("what", "connectivity")
     if what == "large":
         return run_large(payload)
+    if what == "periodic":
+        return run_periodic(payload)
     if what == "history":
         tier, seed = payload.get("tier", "quick"), int(payload.get("seed", 0))
         rng = np.random.RandomState(seed + 5)
